@@ -133,6 +133,16 @@ pairs = [(0xFF00, d.CFindRSPMessage, 'Pending'), (0xFF01, d.CFindRSPMessage, 'Pe
          (0xB000, d.CStoreRSPMessage, 'Warning'), (0xB007, d.CStoreRSPMessage, 'Warning'),
          (0xA700, d.CFindRSPMessage, 'Failure'), (0xC123, d.CStoreRSPMessage, 'Failure'),
          (0xA801, d.CMoveRSPMessage, 'Failure')]
+# a status type given as a str SUBCLASS (an enum member, say) is the same type name
+class Kind(str):
+    pass
+for code, tname in ((0x7001, 'Pending'), (0x7002, 'Warning'), (0x7003, 'Cancel'), (0x7004, 'Success'), (0x7005, 'Failure')):
+    statuses.add_status(code, Kind(tname), 'private code registered with a str subclass')
+    st = statuses.Status(code)
+    flags = [t for a, t in (('is_success', 'Success'), ('is_pending', 'Pending'), ('is_failure', 'Failure'),
+                            ('is_warning', 'Warning'), ('is_cancel', 'Cancel')) if getattr(st, a) is True]
+    if flags != [tname] or st.status_type != tname:
+        bad.append('0x{0:04X} registered as {1} (str subclass): status_type {2!r}, flags {3!r}'.format(code, tname, st.status_type, flags))
 for code, cmd, cls in pairs:
     other = 'Success' if cls != 'Success' else 'Failure'
     statuses.add_status(code, other, 'conflicting general entry')
@@ -156,7 +166,10 @@ def metamorphic(ctx):
     ctx.case(('metamorphic', 'precedence'), True, labels=('metamorphic-precedence',),
              sample={'metamorphic': 'general registration conflicting with 9 service-specific codes'})
     bad = line[0][4:]
-    if bad:
+    if bad and 'str subclass' in bad:
+        ctx.fail('C18:status-type-subclass', 'a status registered with a str-subclass type name is classified inconsistently: ' + bad,
+                 {'kind': 'metamorphic'})
+    elif bad:
         ctx.fail('C18:precedence', 'service-specific class lost to a general registration: ' + bad,
                  {'kind': 'metamorphic'})
 
